@@ -113,7 +113,7 @@ func c06Env(p *Prepared, t Tamper) *Env {
 }
 
 func checkC06(p *Prepared, t Tamper, x *vrt.Exec, o *Outcome) {
-	rp := replayT{Mode: "c06", Case: p.Case, Choices: append([]int{}, x.Choices()...), Extra: vlib.JSON(t)}
+	rp := replayT{Mode: "c06", Case: p.Case, Choices: append([]int{}, x.Choices()...), Extra: vlib.JSON(t)}.withCfg(x)
 	switch x.Outcome {
 	case "ok":
 	case "exit":
